@@ -51,6 +51,7 @@ RULE += ' Round 9: raw parts with equal base names (run<k>/continuous.dat); stor
 RULE += ' Round 10: regular (unjittered) geometries; the all-NaN template may be one without spikes, and templates are compared (all-NaN -> zeros) in that case too.'
 RULE += ' Round 11: params.py as a link into another folder given by a relative path; a raw file cut in the middle of a sample; an ALF samples file with an extra name part.'
 RULE += ' Round 12: a regularised single-precision whitening_mat_inv.npy dated older than every other file.'
+RULE += ' Round 13: a 6-byte header with 1 or 4 trailing bytes; array files in .npy format 2.0 / 3.0.'
 EXHAUSTIVE = {'quick': False, 'thorough': False}
 FLOORS = {'quick': {'evaluations': 1500, 'distinct_nontrivial': 800, 'monitors': {'M1.checked': 2000}},
           'thorough': {'evaluations': 20000, 'distinct_nontrivial': 5000, 'monitors': {'M1.checked': 5000}}}
